@@ -81,12 +81,14 @@ let unres (r : 'a res) : 'a = match r with Ok a -> a | r -> raise (Model_stop (s
 
 (* msgspec parser + construction through the model's API functions, mirroring h_codec.cpp:
    add_field(create_field(fnum, text)); '[' = find_add_group; each '(' ')' = create_group(true) + add *)
-let build_msg (c : ctx) (spec : string) : message =
+let rec build_msg (c : ctx) (spec : string) : message = build_on c spec (fun m -> m)
+(* [pre] transforms the freshly created message before the insertions of the spec (XCOPY) *)
+and build_on (c : ctx) (spec : string) (pre : message -> message) : message =
   let parts = Array.of_list (split_on ';' spec) in
   if Array.length parts <> 4 then raise (Bad_case "spec: 4 parts expected");
   let md = (match find_msg c.c_msgs (nlist_of_string parts.(0)) with
             | Some md -> md | None -> raise (Bad_case "spec: unknown msgtype")) in
-  let msg = mk_message c md true in
+  let msg = pre (mk_message c md true) in
   let fill_part (s : string) (mb0 : mbase) : mbase =
     let i = ref 0 in
     let len = String.length s in
@@ -234,7 +236,7 @@ let with_schema (case : string) (f : ctx -> string -> 'a) : 'a =
 let hexes_of_result (case : string) (r : string) : string list option =
   (* the encoder outputs named by a result line, None when the line is not an OK result *)
   match words case with
-  | "ENC" :: _ -> (match words r with ["OK"; h] -> Some [h] | _ -> None)
+  | "ENC" :: _ | "XCOPY" :: _ -> (match words r with ["OK"; h] -> Some [h] | _ -> None)
   | "ENC2" :: _ -> (match words r with ["OK"; h1; h2] -> Some [h1; h2] | _ -> None)
   | "RT" :: _ ->
       (match List.map String.trim (split_on '|' r) with
@@ -244,6 +246,19 @@ let hexes_of_result (case : string) (r : string) : string list option =
             | _ -> None)
        | _ -> None)
   | _ -> None
+
+(* "XCOPY <msgspec A> <msgspec B>": A->copy_legal(B) on the body (coq/C02/CopyModel.v), then B's
+   own insertions, encode B *)
+let xcopy (c : ctx) (speca : string) (specb : string) : string =
+  try
+    let a = build_msg c speca in
+    let b = build_on c specb (fun b0 ->
+      let body = unres (copy_legal a.m_body b0.m_body) in
+      { m_type = b0.m_type; m_hdr = b0.m_hdr; m_body = body; m_trl = b0.m_trl }) in
+    string_of_res (fun (bytes, _) -> hex_of_nlist bytes) (op_enc c b)
+  with
+  | Bad_case s -> "BAD-CASE " ^ s
+  | Model_stop s -> s
 
 (* "HYP <msgspec>": do the hypotheses of theorem c02_wellformed hold for this object? *)
 let hyp_of (c : ctx) (spec : string) : bool =
@@ -255,7 +270,7 @@ let () = run_protocol (fun case0 impl -> with_schema case0 (fun c case ->
       let h = (try hyp_of c spec with _ -> false) in
       ((if h then "1" else "0"), impl = "1", h)
   | _ ->
-  let m = run_op c case in
+  let m = (match words case with ["XCOPY"; a; b] -> xcopy c a b | _ -> run_op c case) in
   (* theorem c02_wellformed, checked on every case: hypotheses => the model's bytes pass wire_ok *)
   let m = (match words case with
            | ["ENC"; spec] | ["RT"; _; spec] ->
